@@ -339,6 +339,70 @@ fn record_views(ctx: &Context<'_>, env: &Env, path: &str, parent_ty: &str, field
     let mut out = vec![];
     walk(ctx.field(), "", &mut out);
     env.log.push(Ek::View, path, parent_ty, field, None, &out.join(";"));
+    record_views_json(ctx, env, path, parent_ty, field);
+}
+
+/// Structured form of the two views of the current field (C22), pushed as two further `Ek::View`
+/// events whose `extra` is JSON (only for fields that have a selection set):
+/// `{"view":"selection","entries":[[[key,…], name, args],…]}` — `ctx.field().selection_set()` walked
+/// recursively, entries addressed by the response keys below the field;
+/// `{"view":"lookahead","entries":[[[name,…], key, args],…]}` — `ctx.look_ahead().field(n)…` asked for every
+/// field name of the type system at every level, entries (one per `selection_fields()` item) addressed by the
+/// field names below the field. `args` is `{argument: resolved value}` or `{"<error>": message}`.
+pub fn record_views_json(ctx: &Context<'_>, env: &Env, path: &str, parent_ty: &str, field: &str) {
+    use serde_json::{Value as J, json};
+    fn args_of(f: &SelectionField<'_>) -> J {
+        match f.arguments() {
+            Ok(a) => J::Object(a.iter().map(|(k, v)| (k.to_string(), crate::conv::to_val(v).json())).collect()),
+            Err(e) => json!({"<error>": e.message}),
+        }
+    }
+    fn walk(f: SelectionField<'_>, prefix: &[String], out: &mut Vec<J>) {
+        for c in f.selection_set() {
+            let mut p = prefix.to_vec();
+            p.push(c.alias().unwrap_or(c.name()).to_string());
+            out.push(json!([p, c.name(), args_of(&c)]));
+            walk(c, &p, out);
+        }
+    }
+    fn la_walk(la: &Lookahead<'_>, names: &[String], prefix: &[String], out: &mut Vec<J>) {
+        if prefix.len() > 12 {
+            return;
+        }
+        for n in names {
+            let sub = la.field(n);
+            if !sub.exists() {
+                continue;
+            }
+            let mut p = prefix.to_vec();
+            p.push(n.clone());
+            let fields = sub.selection_fields();
+            if fields.is_empty() {
+                out.push(json!([p, J::Null, {}]));
+            }
+            for sf in &fields {
+                out.push(json!([p, sf.alias().unwrap_or(sf.name()), args_of(sf)]));
+            }
+            la_walk(&sub, names, &p, out);
+        }
+    }
+    if ctx.field().selection_set().next().is_none() {
+        return;
+    }
+    let mut out = vec![];
+    walk(ctx.field(), &[], &mut out);
+    env.log.push(Ek::View, path, parent_ty, field, None, &json!({"view": "selection", "entries": out}).to_string());
+    let mut names: Vec<String> = vec!["__typename".to_string()];
+    for t in &env.ts.types {
+        if let Kind::Object { fields, .. } | Kind::Interface { fields, .. } = &t.kind {
+            names.extend(fields.iter().map(|f| f.name.clone()));
+        }
+    }
+    names.sort();
+    names.dedup();
+    let mut out = vec![];
+    la_walk(&ctx.look_ahead(), &names, &[], &mut out);
+    env.log.push(Ek::View, path, parent_ty, field, None, &json!({"view": "lookahead", "entries": out}).to_string());
 }
 
 macro_rules! args {
